@@ -227,7 +227,27 @@ class TwAdd(TwExpr):
     w: Annotated[int, IntRange(0, 9)]
 
 
+from geneticengine.grammar.metahandlers.strings import StringSizeBetween  # noqa: E402
+
+
+class SExpr(ABC):
+    pass
+
+
+@dataclass
+class SLit(SExpr):
+    s: Annotated[str, StringSizeBetween(1, 4, list("abcdefgh"))]
+
+
+@dataclass
+class SCat(SExpr):
+    l: SExpr
+    r: SExpr
+
+
 GRAMMARS = {
+    # an alphabet of one-character strings (whose hashes depend on PYTHONHASHSEED)
+    "strs": ([SLit, SCat], SExpr),
     "twins": ([TwLit, TwVar, TwAdd], TwExpr),
     "wstrings": ([wsgrammar.Seq, wsgrammar.Join], wsgrammar.E),
     # a production that fails in some contexts (creation backtracks to its siblings)
@@ -271,7 +291,8 @@ def run_one(algo: str, rep_name: str, gname: str, seed: int, budget: int, own_tr
     if gname == "usable":
         # the reachable sub-grammar, as the library derives it (its production order feeds every choice)
         g = g.usable_grammar()
-    r = NativeRandomSource(seed)
+    # (seed None: the source is created WITHOUT a seed argument -- the documented default)
+    r = NativeRandomSource(seed) if seed is not None else NativeRandomSource()
     if rep_name == "tree":
         rep = TreeBasedRepresentation(g, MaxDepthDecider(r, g, 5))
     elif rep_name == "tree-pi":
